@@ -84,7 +84,7 @@ pub fn run(shard: &Shard) -> i32 {
         return 0;
     }
     let grid: Vec<isize> = vec![isize::MIN, isize::MIN + 1, -(1 << 62), -1_000_000_000, -1000, -2, -1, 0, 1, 2, 1000, 1_000_000_000, 1 << 62, isize::MAX - 1, isize::MAX];
-    if shard.idx == 0 {
+    if shard.idx == 0 && shard.only_case.is_none() {
         with_acc(|a| {
             for (i, lb) in grid.iter().enumerate() { for ub in grid.iter().skip(i) { eval_pair(*lb, *ub, a, true); } }
             a.exhaustive = Some(true);
